@@ -624,3 +624,20 @@ func (f Slice) Walk(rest, path Expr, nodes []any, cb func(path Expr, nodes []any
 		}
 	}
 }
+
+// sliceLast returns the last index selected by a slice with the normalized
+// start, end, and step or, if the range is empty, an index just before start in
+// the direction of the step so that a loop walking back to start does not
+// select anything.
+func sliceLast(start, end, step int) int {
+	if 0 < step {
+		if end <= start {
+			return start - 1
+		}
+		return start + (end-start-1)/step*step
+	}
+	if start <= end {
+		return start + 1
+	}
+	return start - (start-end-1)/step*step
+}
